@@ -1,6 +1,7 @@
 package rules
 
 import (
+	"go/constant"
 	"fmt"
 	"go/token"
 	"sort"
@@ -17,7 +18,7 @@ func init() {
 		Property: "C18",
 		Explanation: "SEE/PATH rules on Monitor.handle: R-C18-1 exactly one MonMessagesReceivedTotal(1, iface, host, Type().String()) on every path; " +
 			"R-C18-2 on the RA arm each gauge's value and labels come from the like-named field of the received RA / prefix option (managed⇐ManagedConfiguration, other⇐OtherConfiguration, default-route expiry emitted iff RouterLifetime != 0 as now.Add(RouterLifetime).Unix(); per prefix on-link⇐OnLink, autonomous⇐AutonomousAddressConfiguration, preferred/valid expiry ⇐ now.Add(Preferred/ValidLifetime).Unix(), labels (iface, cidrStr(Prefix,PrefixLength), host)), one clock read per message; " +
-			"R-C18-3 the handler has no error result and no panic exit, cidrStr is netip.PrefixFrom(addr,int(len)).String(), the callback passes the zone-less host string R-C18-3 also: no panic statement and no always-panicking helper is reachable from Monitor.handle.",
+			"R-C18-3 the handler has no error result and no panic exit, cidrStr is netip.PrefixFrom(addr,int(len)).String(), the callback passes the zone-less host string R-C18-3 also: no panic statement and no always-panicking helper is reachable from Monitor.handle; R-C18-4 every Mon* field of Metrics is assigned, in NewMetrics only, the backend's own Counter/Gauge function with the documented label names (no wrapper in between).",
 		Assumptions: []string{"Go type checker and go/ssa construction are correct", "pick[T] selects exactly the options of type T (checked type assertion)"},
 		NotCovered:  []string{"overflow of now.Add for infinite lifetimes (a value question)", "label cardinality"},
 		Run:         runC18,
@@ -91,6 +92,7 @@ func runC18(c *Ctx) {
 	}
 	fn := c.fname(h)
 	c18NoPanic(c)
+	c18MetricsDirect(c)
 	c.R.Check(h.Signature.Results().Len() == 0, "R-C18-3", fn+":no-result", fn, c.pos(h.Pos()), fmt.Sprintf("%d results", h.Signature.Results().Len()), "the monitor handler cannot fail", "monitor can fail on a message")
 	ps := c.pathsO("R-C18-1", h, an.PathOpts{EmitCut: true})
 	isRA := func(e *an.Expr) bool {
@@ -328,4 +330,68 @@ func c18NoPanic(c *Ctx) {
 		}
 	}
 	c.R.Check(n >= 2, "R-C18-3", c.fname(h)+":reachable-functions", c.fname(h), c.pos(h.Pos()), fmt.Sprintf("%d module function(s) reachable from handle, none can panic", n), ">= 2", "anchor-missing")
+}
+
+
+// c18MetricsDirect (R-C18-4): the monitor's counters and gauges are the
+// metrics backend's own functions: every Mon* field of Metrics is assigned,
+// in NewMetrics only, the result of metricslite's Counter/Gauge constructor
+// called with the documented label names. A wrapper in between (sampling,
+// label rewriting, cardinality bounding) changes what "counted once by
+// (interface, host, message type)" means.
+func c18MetricsDirect(c *Ctx) {
+	nm := c.needFunc("R-C18-4", "internal/corerad", "NewMetrics")
+	if nm == nil {
+		return
+	}
+	labels := map[string][]string{
+		"MonMessagesReceivedTotal": {"interface", "host", "message"},
+	}
+	n := 0
+	for _, fn := range c.srcFuncs() {
+		for _, b := range fn.Blocks {
+			for _, in := range b.Instrs {
+				st, ok := in.(*ssa.Store)
+				if !ok {
+					continue
+				}
+				fa, ok := st.Addr.(*ssa.FieldAddr)
+				if !ok {
+					continue
+				}
+				pkg, typ, f := an.FieldAddrName(fa)
+				if pkg != PkgCorerad || typ != "Metrics" || !strings.HasPrefix(f, "Mon") {
+					continue
+				}
+				n++
+				e := c.XO.Of(st.Val)
+				direct := e.Op == an.OpCall && e.Fn == nil && (e.Name == "Counter" || e.Name == "Gauge")
+				fact := fmt.Sprintf("Metrics.%s ⇐ %s in %s", f, shortExpr(e), c.fname(fn))
+				okLabels := true
+				if want, has := labels[f]; has && direct {
+					var got []string
+					e.Walk(func(x *an.Expr) bool {
+						if x.Op == an.OpConst && x.Cval != nil && x.Cval.Kind() == constant.String {
+							got = append(got, constant.StringVal(x.Cval))
+						}
+						return true
+					})
+					// the constructor's arguments are name, help, labels…: the labels are the last len(want) strings
+					okLabels = len(got) >= len(want)
+					if okLabels {
+						tail := got[len(got)-len(want):]
+						for i := range want {
+							if tail[i] != want[i] {
+								okLabels = false
+							}
+						}
+					}
+					fact += fmt.Sprintf("; label names %v", got)
+				}
+				c.R.Check(direct && okLabels && fn == nm, "R-C18-4", "corerad.Metrics."+f+":backend-function", c.fname(fn), c.pos(st.Pos()), fact,
+					"assigned in NewMetrics the backend's Counter/Gauge with the documented label names, nothing in between", "monitor metrics pass through a wrapper that can drop, merge or relabel series")
+			}
+		}
+	}
+	c.R.Check(n >= 7, "R-C18-4", "corerad.Metrics:mon-fields", "", "", fmt.Sprintf("%d assignment(s) to Mon* fields", n), ">= 7", "anchor-missing")
 }
